@@ -37,6 +37,18 @@ func init() {
 			for i := range c09Ops() {
 				u = append(u, "converse#"+strconv.Itoa(i))
 			}
+			// ... and from decoded databases (several same-shape lists; an empty list with a real
+			// SignatureSize; a list holding one entry twice)
+			for ii := range c09Inits() {
+				if ii == 0 {
+					continue
+				}
+				for i, op := range c09Ops() {
+					if op.kind == "remove" || op.kind == "append" {
+						u = append(u, "converse#"+strconv.Itoa(i)+"#"+strconv.Itoa(ii))
+					}
+				}
+			}
 			return append(u, "fixtures")
 		},
 		Run: c07Run,
@@ -58,6 +70,7 @@ func c07Bound(tier string) (maxLists, maxEntries int) {
 func c07CheckStream(c *hx.Ctx, s []byte, want []refesl.List, label string) {
 	aliasing := false
 	outAlias := false
+	reused := false
 	readerDep := ""
 	var db signature.SignatureDatabase
 	var err error
@@ -81,6 +94,15 @@ func c07CheckStream(c *hx.Ctx, s []byte, want []refesl.List, label string) {
 			other.Marshal(&mb)
 			if !bytes.Equal(keep, want0) {
 				outAlias = true
+			}
+		}
+		// decoding into a value that already holds something replaces it
+		if err == nil {
+			var used signature.SignatureDatabase
+			used.Append(signature.CERT_SHA256_GUID, unwire(ownerB), fill(32, 0x55))
+			used.Append(signature.CERT_X509_GUID, unwire(ownerA), fill(9, 0x44))
+			if e4 := used.Unmarshal(bytes.NewBuffer(append([]byte{}, s...))); e4 != nil || !bytes.Equal(used.Bytes(), s) {
+				reused = true
 			}
 		}
 		// readers that deliver data in other portions (one byte at a time, half reads, data together with io.EOF)
@@ -136,6 +158,11 @@ func c07CheckStream(c *hx.Ctx, s []byte, want []refesl.List, label string) {
 	if outAlias {
 		c.Outcome("encoding-aliases-shared-buffer")
 		c.Violation("C07 an encoding returned earlier changes when another value is encoded afterwards", map[string]any{"stream": hx8(s), "shape": label})
+		return
+	}
+	if reused {
+		c.Outcome("decode-into-used-value")
+		c.Violation("C07 decoding into a database value that already holds lists does not yield exactly the stream's lists", map[string]any{"stream": hx8(s), "shape": label})
 		return
 	}
 	if readerDep != "" {
@@ -213,7 +240,7 @@ func mismatchClass(why string, want []refesl.List) string {
 // stream that carries exactly its lists and, when all types are decodable,
 // decodes to an equal database. Bounded breadth-first enumeration of operation
 // sequences from the empty database, first operation fixed per unit.
-func c07Converse(c *hx.Ctx, tier string, first int) {
+func c07Converse(c *hx.Ctx, tier string, first int, initIdx int) {
 	c.NoOnly = true // a state search: cases depend on each other
 	ops := c09Ops()
 	depth := 2
@@ -237,6 +264,9 @@ func c07Converse(c *hx.Ctx, tier string, first int) {
 					continue
 				}
 				db := signature.NewSignatureDatabase()
+				if initIdx > 0 {
+					db = c09Inits()[initIdx].mk()
+				}
 				path := append(append([]int{}, nd.path...), oi)
 				var enc []byte
 				var names []string
@@ -304,8 +334,13 @@ func c07Run(c *hx.Ctx, tier, unit string) {
 		return
 	}
 	if strings.HasPrefix(unit, "converse#") {
-		first, _ := strconv.Atoi(strings.TrimPrefix(unit, "converse#"))
-		c07Converse(c, tier, first)
+		pp := strings.Split(unit, "#")
+		first, _ := strconv.Atoi(pp[1])
+		initIdx := 0
+		if len(pp) > 2 {
+			initIdx, _ = strconv.Atoi(pp[2])
+		}
+		c07Converse(c, tier, first, initIdx)
 		return
 	}
 	shard, _ := strconv.Atoi(strings.TrimPrefix(unit, "streams#"))
